@@ -114,10 +114,18 @@ def run_history(ctx, nclients, ops, names, case):
             flags = op[3]
             old_flags = dict((c, f) for c, f in model.q.get(name, []))
             code, expected_events, replaced = model.request(cid, name, flags)
-            s = cl.call('RequestName', 'su', [name, flags], sender=forged_sender(w_, cid, len(hist), ctx))
+            # every fifth request / release is fire-and-forget (NO_REPLY_EXPECTED): it takes effect all the same; a reply,
+            # should one come, still has to state the right code
+            quiet = (len(hist) + cid) % 5 == 3
+            s = cl.call('RequestName', 'su', [name, flags], sender=forged_sender(w_, cid, len(hist), ctx),
+                        flags=RM.NO_REPLY_EXPECTED if quiet else 0)
             rep = cl.reply_to(s)
             w['expected_reply'] = code
-            if rep is None or rep.mtype != RM.METHOD_RETURN or rep.body != [code]:
+            if quiet:
+                ctx.count('fire_and_forget_requests')
+            if quiet and rep is None:
+                pass
+            elif rep is None or rep.mtype != RM.METHOD_RETURN or rep.body != [code]:
                 w['reply'] = (rep.mtype, rep.fields.get('error_name'), rep.body) if rep else None
                 ctx.report(classify_request(op, code, rep, model), 'RequestName(%s, flags=%d) by client %d answered %r, '
                            'expected %d' % (name, flags, cid, w['reply'], code), w, case)
@@ -127,9 +135,15 @@ def run_history(ctx, nclients, ops, names, case):
             name = names[op[2]]
             was_queued = cid in model.queue(name)[1:]
             codes, expected_events = model.release(cid, name)
-            s = cl.call('ReleaseName', 's', [name], sender=forged_sender(w_, cid, len(hist), ctx))
+            quiet = (len(hist) + cid) % 5 == 3
+            s = cl.call('ReleaseName', 's', [name], sender=forged_sender(w_, cid, len(hist), ctx),
+                        flags=RM.NO_REPLY_EXPECTED if quiet else 0)
             rep = cl.reply_to(s)
-            if rep is None or rep.mtype != RM.METHOD_RETURN or rep.body[0] not in codes:
+            if quiet:
+                ctx.count('fire_and_forget_releases')
+            if quiet and rep is None:
+                pass
+            elif rep is None or rep.mtype != RM.METHOD_RETURN or rep.body[0] not in codes:
                 w['reply'] = (rep.mtype, rep.fields.get('error_name'), rep.body) if rep else None
                 ctx.report(classify_release(was_queued), 'ReleaseName(%s) by client %d answered %r, expected one of %s' % (
                     name, cid, w['reply'], sorted(codes)), w, case)
